@@ -88,13 +88,13 @@ func spec_userAction(r int, dollarDolar *StateSym, Dollar []StateSym)
 //@ modifies StackPointer
 
 //@ func ParserInit
-//@ props C15 C08 C07
+//@ props C15 C08 C07 C01 C02 C06 C17
 //@ requires len(StateSymStack) == 0 || (StateSymStack[0].Yystate == 0 && StateSymStack[0].YySymIndex == 1 && StateSymStack[0].ValType == ValType{})
 //@ ensures [C15,C08] StackPointer == 1 && len(StateSymStack) >= 1
 //@ ensures [C15,C08] StateSymStack[0].Yystate == 0 && StateSymStack[0].YySymIndex == 1 && StateSymStack[0].ValType == ValType{}
 // global mode: a new parse gets a NEW stack array, so values handed out by an earlier parse (Parser returns a pointer into
 // the stack) and a stack saved by PushContex are never overwritten by a later parse (C07, C15)
-//@ ensures [C07,C08,C15] freshStackAfterInit()
+//@ ensures [C07,C08,C15,C01,C02,C06,C17] freshStackAfterInit()
 //@ modifies StateSymStack, StackPointer
 
 //@ func ReduceFunc
